@@ -235,6 +235,8 @@ def run(ctx):
     from . import system_common as sysc
     sessions, verdict = sysc.run_sessions(ctx, 150 if ctx.quick else 3000, ctx.seed + 4)
     sysc.judge(ctx, "C04", sessions, verdict, sysc.SAVE_OPS, "load / save / re-open lifecycle")
+    sessions, verdict = sysc.run_sessions(ctx, 100 if ctx.quick else 2000, ctx.seed + 40, file_bias=True)
+    sysc.judge(ctx, "C04", sessions, verdict, sysc.SAVE_OPS, "load / save / re-open lifecycle with named files")
     sysc.mc_for(ctx, "C04")          # MC_System: bounded model of whole sessions, every transition replayed on the library
     ctx.exhaustive = True
     ctx.rule = ("S2C: every loadable text of the bounded MC_Load model x 3 format choices x strict/lenient; C2S: "
